@@ -295,8 +295,9 @@ def writers(ctx, P):
             detail = {"values": [(l, show(x)) for l, x in vals]}
         ctx.ob("AcceptBlock/position-provenance@L%s" % s.line, "PROVENANCE",
                "the position recorded for the block is the one returned by WriteBlock (or the caller-supplied *dbp during reindex)", ok, s.where, None if ok else detail)
+    posn = {show(call_args(s.expr)[2]) for s in sites(ab, mcall_named("ChainstateManager::ReceivedBlockTransactions"), P)}
     check_guard(ctx, ab, P, mcall_named("ChainstateManager::ReceivedBlockTransactions"), "DBP || !NULLPOS",
-                {"DBP": "dbp", "NULLPOS": "blockPos.IsNull()"}, "AcceptBlock/nonnull-position",
+                {"DBP": "dbp", "NULLPOS": lambda k_: any(k_ == "%s.IsNull()" % n for n in posn)}, "AcceptBlock/nonnull-position",
                 "the block is marked as stored only if WriteBlock returned a non-null position")
 
 
